@@ -165,6 +165,11 @@ func sRanges[I signedInt](kind string, min, max I, rng func(I, I) *rapid.Generat
 		one(fmt.Sprintf("%sMax(%d)", kind, min+1), "int", func() *rapid.Generator[I] { return gmax(min + 1) }, inS(min, min+1)),
 		one(fmt.Sprintf("%sMax(%d)", kind, max), "int", func() *rapid.Generator[I] { return gmax(max) }, inS(min, max)),
 		one(fmt.Sprintf("%sMin(-2)", kind), "int", func() *rapid.Generator[I] { return gmin(-2) }, inS(-2, max)),
+		// one-element domains through the shorthand constructors
+		one(fmt.Sprintf("%sMax(%d)", kind, min), "int", func() *rapid.Generator[I] { return gmax(min) }, inS(min, min)),
+		one(fmt.Sprintf("%sMin(%d)", kind, max), "int", func() *rapid.Generator[I] { return gmin(max) }, inS(max, max)),
+		one(fmt.Sprintf("%sMax(0)", kind), "int", func() *rapid.Generator[I] { return gmax(0) }, inS(min, 0)),
+		one(fmt.Sprintf("%sMin(0)", kind), "int", func() *rapid.Generator[I] { return gmin(0) }, inS(0, max)),
 	)
 	return ps
 }
@@ -189,6 +194,9 @@ func uRanges[I unsignedInt](kind string, max I, rng func(I, I) *rapid.Generator[
 		one(fmt.Sprintf("%sMin(%d)", kind, max-1), "int", func() *rapid.Generator[I] { return gmin(max - 1) }, inU(max-1, max)),
 		one(fmt.Sprintf("%sMax(1)", kind), "int", func() *rapid.Generator[I] { return gmax(1) }, inU[I](0, 1)),
 		one(fmt.Sprintf("%sMax(%d)", kind, max), "int", func() *rapid.Generator[I] { return gmax(max) }, inU(0, max)),
+		one(fmt.Sprintf("%sMax(0)", kind), "int", func() *rapid.Generator[I] { return gmax(0) }, inU[I](0, 0)),
+		one(fmt.Sprintf("%sMin(%d)", kind, max), "int", func() *rapid.Generator[I] { return gmin(max) }, inU(max, max)),
+		one(fmt.Sprintf("%sMin(0)", kind), "int", func() *rapid.Generator[I] { return gmin(0) }, inU(0, max)),
 	)
 	return ps
 }
@@ -276,6 +284,12 @@ func FloatProgs() []Prog {
 		one("Float64()", "float", rapid.Float64, f64c(-math.MaxFloat64, math.MaxFloat64)),
 		one("Float64Min(-1)", "float", func() *rapid.Generator[float64] { return rapid.Float64Min(-1) }, f64c(-1, math.MaxFloat64)),
 		one("Float64Max(1e300)", "float", func() *rapid.Generator[float64] { return rapid.Float64Max(1e300) }, f64c(-math.MaxFloat64, 1e300)),
+		one("Float64Max(-1e300)", "float", func() *rapid.Generator[float64] { return rapid.Float64Max(-1e300) }, f64c(-math.MaxFloat64, -1e300)),
+		one("Float64Max(-MaxFloat64)", "float", func() *rapid.Generator[float64] { return rapid.Float64Max(-math.MaxFloat64) }, f64c(-math.MaxFloat64, -math.MaxFloat64)),
+		one("Float64Min(MaxFloat64)", "float", func() *rapid.Generator[float64] { return rapid.Float64Min(math.MaxFloat64) }, f64c(math.MaxFloat64, math.MaxFloat64)),
+		one("Float64Min(1e300)", "float", func() *rapid.Generator[float64] { return rapid.Float64Min(1e300) }, f64c(1e300, math.MaxFloat64)),
+		one("Float32Max(-MaxFloat32)", "float", func() *rapid.Generator[float32] { return rapid.Float32Max(-math.MaxFloat32) }, f32c(-math.MaxFloat32, -math.MaxFloat32)),
+		one("Float32Min(MaxFloat32)", "float", func() *rapid.Generator[float32] { return rapid.Float32Min(math.MaxFloat32) }, f32c(math.MaxFloat32, math.MaxFloat32)),
 	)
 	inf32 := float32(math.Inf(1))
 	den32 := float32(math.SmallestNonzeroFloat32)
@@ -419,6 +433,25 @@ func CollectionProgs() []Prog {
 			func(s []bool) string { return lenIn(len(s), -1, 3) }),
 		one("SliceOfN(Just(7),3,-1)", "coll", func() *rapid.Generator[[]int] { return rapid.SliceOfN(rapid.Just(7), 3, -1) },
 			func(s []int) string { return first(lenIn(len(s), 3, -1), allIn(s, 7, 7)) }),
+		// "negative means no limit" is not only -1
+		one("SliceOfN(IntRange(0,2),-3,-2)", "coll", func() *rapid.Generator[[]int] { return rapid.SliceOfN(rapid.IntRange(0, 2), -3, -2) },
+			func(s []int) string { return allIn(s, 0, 2) }),
+		one("SliceOfNDistinct(IntRange(0,2),2,-2)", "coll rej", func() *rapid.Generator[[]int] { return rapid.SliceOfNDistinct(rapid.IntRange(0, 2), 2, -2, id) },
+			func(s []int) string { return first(lenIn(len(s), 2, -1), allIn(s, 0, 2), distinctInts(s)) }),
+		one("SliceOfNDistinct(IntRange(0,2),-7,-5)", "coll rej", func() *rapid.Generator[[]int] { return rapid.SliceOfNDistinct(rapid.IntRange(0, 2), -7, -5, id) },
+			func(s []int) string { return first(allIn(s, 0, 2), distinctInts(s)) }),
+		one("MapOfN(IntRange(0,2),Bool(),1,-4)", "coll rej", func() *rapid.Generator[map[int]bool] { return rapid.MapOfN(rapid.IntRange(0, 2), rapid.Bool(), 1, -4) },
+			func(m map[int]bool) string { return lenIn(len(m), 1, 3) }),
+		one("MapOfNValues(IntRange(0,5),-2,-3,mod2)", "coll rej", func() *rapid.Generator[map[int]int] {
+			return rapid.MapOfNValues(rapid.IntRange(0, 5), -2, -3, func(v int) int { return v % 2 })
+		}, func(m map[int]int) string {
+			for k, v := range m {
+				if v%2 != k {
+					return "key is not keyFn(value)"
+				}
+			}
+			return lenIn(len(m), -1, 2)
+		}),
 		one("SliceOfDistinct(IntRange(0,2))", "coll rej", func() *rapid.Generator[[]int] { return rapid.SliceOfDistinct(rapid.IntRange(0, 2), id) },
 			func(s []int) string { return first(allIn(s, 0, 2), distinctInts(s)) }),
 		one("SliceOfDistinct(Just(1))", "coll rej", func() *rapid.Generator[[]int] { return rapid.SliceOfDistinct(rapid.Just(1), id) },
@@ -522,6 +555,13 @@ func StringProgs() []Prog {
 			strContract(-1, 2, 3, func(r rune) bool { return r == 'a' || r == '世' })),
 		one("StringOfN(RuneFrom(é),2,3,5)", "str rej", func() *rapid.Generator[string] { return rapid.StringOfN(rapid.RuneFrom([]rune{'é'}), 2, 3, 5) },
 			strContract(2, 3, 5, func(r rune) bool { return r == 'é' })),
+		// rune limit and byte limit together, with multi-byte runes
+		one("StringN(-1,8,12)", "str rej wide", func() *rapid.Generator[string] { return rapid.StringN(-1, 8, 12) }, strContract(-1, 8, 12, nil)),
+		one("StringN(0,3,4)", "str rej wide", func() *rapid.Generator[string] { return rapid.StringN(0, 3, 4) }, strContract(0, 3, 4, nil)),
+		one("StringOfN(RuneFrom(nil,Han),1,5,6)", "str rej", func() *rapid.Generator[string] { return rapid.StringOfN(rapid.RuneFrom(nil, unicode.Han), 1, 5, 6) },
+			strContract(1, 5, 6, func(r rune) bool { return unicode.Is(unicode.Han, r) })),
+		one("StringOfN(RuneFrom(é世),-4,-2,5)", "str rej", func() *rapid.Generator[string] { return rapid.StringOfN(rapid.RuneFrom([]rune{'é', '世'}), -4, -2, 5) },
+			strContract(-1, -1, 5, func(r rune) bool { return r == 'é' || r == '世' })),
 		one("StringOf(RuneFrom(nil,Nd))", "str", func() *rapid.Generator[string] { return rapid.StringOf(rapid.RuneFrom(nil, unicode.Nd)) },
 			strContract(-1, -1, -1, func(r rune) bool { return unicode.Is(unicode.Nd, r) })),
 		// a user-supplied rune generator that also yields unencodable code points (surrogates):
@@ -550,7 +590,8 @@ func StringProgs() []Prog {
 			return ""
 		}),
 	}
-	for _, expr := range []string{`abc`, `[ab]{2,3}c?`, `a|bc|d`, `x*`, `y+z`, `^a+$`, `(?i)go`, `\bfoo\b`, `[^a]`, `.`, `(?s).`, `a{0}`, `(a|b)*c`, `\d{3}-\w`, `[[:^alpha:]]`, `^$`, `a$b`, `\pN\PN`, `[α-ω]+`, `\x00`} {
+	for _, expr := range []string{`abc`, `[ab]{2,3}c?`, `a|bc|d`, `x*`, `y+z`, `^a+$`, `(?i)go`, `\bfoo\b`, `[^a]`, `.`, `(?s).`, `a{0}`, `(a|b)*c`, `\d{3}-\w`, `[[:^alpha:]]`, `^$`, `a$b`, `\pN\PN`, `[α-ω]+`, `\x00`,
+		`[\x{D7F0}-\x{D80F}]+`, `\pC`, `\p{Cs}?a`, `[^\x{0}-\x{D7FF}\x{E000}-\x{10FFFF}]|b`, `\PL{2}`} {
 		expr := expr
 		re := regexp.MustCompile(expr)
 		ps = append(ps,
@@ -776,6 +817,18 @@ func MachineProgs() []Prog {
 					"Put": func(t *rapid.T) { r.Draws = append(r.Draws, fmt.Sprintf("Put%v", rapid.Bool().Draw(t, "v"))) },
 					"PUT": func(t *rapid.T) { r.Draws = append(r.Draws, "PUT") },
 					"get": func(t *rapid.T) { r.Draws = append(r.Draws, "get") },
+				})
+			}
+		}},
+		{Name: "Repeat(draw, first-draw-is-a-Filter-that-may-give-up)", Tags: "machine rej", New: func() func(t *rapid.T, r *Rec) {
+			picky := rapid.IntRange(0, 9).Filter(func(i int) bool { return i >= 7 })
+			return func(t *rapid.T, r *Rec) {
+				t.Repeat(map[string]func(*rapid.T){
+					"a": func(t *rapid.T) { r.Draws = append(r.Draws, fmt.Sprintf("a%d", rapid.IntRange(0, 3).Draw(t, "v"))) },
+					"f": func(t *rapid.T) {
+						v := picky.Draw(t, "picky") // may run out of tries: the action is then inapplicable
+						r.Draws = append(r.Draws, fmt.Sprintf("f%d", v))
+					},
 				})
 			}
 		}},
